@@ -79,7 +79,8 @@ def schema():
 
 # ------------------------------------------------------------------ strategy
 
-NAMES = ["", "a", "b", ".text", "é", "naïve", "\x00", "x\x00y", "日本", "main", "a", "\U0001d11e"]
+NAMES = ["", "a", "b", ".text", "é", "naïve", "\x00", "x\x00y", "日本", "main", "a", "\U0001d11e",
+         "\ufeff", "\ufeffa", " a ", "a\r\n", "e\u0301"]
 
 
 def _u64():
